@@ -235,14 +235,16 @@ def load_performance(
     except Exception as e:
         exception_dictionary["midi"] = e
 
-    try:
-        performance, _ = load_match(
-            filename=filename,
-            first_note_at_zero=first_note_at_zero,
-            pedal_threshold=pedal_threshold,
-        )
-    except Exception as e:
-        exception_dictionary["match"] = e
+    if performance is None:
+        # not a MIDI file: try the match format
+        try:
+            performance, _ = load_match(
+                filename=filename,
+                first_note_at_zero=first_note_at_zero,
+                pedal_threshold=pedal_threshold,
+            )
+        except Exception as e:
+            exception_dictionary["match"] = e
 
     if performance is None:
         for file_format, exception in exception_dictionary.items():
